@@ -15,7 +15,7 @@ from pyvc import sym
 from pyvc.sym import lift, cfrac_eq, frac_eq
 from pyvc.interp import PyRaise
 from pyvc.oblig import obligation, verify, bounded, exhaustive, Goal, merge
-from .common import stable_rng, quick
+from .common import stable_rng, quick, Frame
 from .C08 import _cmat
 from .C20 import _rmat, _conjT, _meq
 
@@ -189,6 +189,58 @@ def ob_ls(cfg):
     return verify(body, check_side=False, timeout_ms=60000)
 
 
+@obligation("ls/native_pilot_and_channel_representations", kind="exhaustive",
+            desc="the symbolic LS proof treats entries as numbers: on the real code the estimate must not depend on how pilots and received "
+                 "samples are stored - real pilots (float64, int64, +-1 Hadamard) or complex pilots x complex or real channel, for the "
+                 "2-D call, 3-D batches with shared pilots and 3-D batches with per-realisation pilots: estimate == H (1e-9), incl. the "
+                 "imaginary part of a complex channel estimated from real pilots")
+def ob_ls_native():
+    import pyphysim.channel_estimation.estimators as est
+
+    def cases():
+        for pil in ("complex", "real_float", "real_int", "hadamard"):
+            for chan in ("complex", "real"):
+                for form in ("2d", "batch_shared", "batch_own"):
+                    for (Nr, Nt, Np) in ((2, 1, 2), (2, 2, 4), (3, 2, 4)):
+                        yield {"pilots": pil, "channel": chan, "form": form, "Nr": Nr, "Nt": Nt, "Np": Np}
+
+    def check(case):
+        rr = stable_rng("C18ls" + repr(sorted(case.items())))
+        Nr, Nt, Np = case["Nr"], case["Nt"], case["Np"]
+
+        def pilots():
+            if case["pilots"] == "complex":
+                return rr.randn(Nt, Np) + 1j * rr.randn(Nt, Np)
+            if case["pilots"] == "real_float":
+                return rr.randn(Nt, Np)
+            if case["pilots"] == "real_int":
+                return (np.arange(Nt * Np).reshape(Nt, Np) % 5 + np.eye(Nt, Np, dtype=int) * 7).astype(np.int64)
+            from scipy.linalg import hadamard
+            return hadamard(4)[:Nt, :Np].astype(float) if Np == 4 else np.array([[1.0, -1.0]])[:Nt, :Np]
+
+        def chan():
+            return rr.randn(Nr, Nt) + (1j * rr.randn(Nr, Nt) if case["channel"] == "complex" else 0)
+        if case["form"] == "2d":
+            H, s = chan(), pilots()
+            got, want = est.compute_ls_estimation(H @ s, s), H
+        elif case["form"] == "batch_shared":
+            s = pilots()
+            Hs = np.array([chan() for _ in range(3)])
+            got, want = est.compute_ls_estimation(np.array([h @ s for h in Hs]), s), Hs
+        else:
+            ss = np.array([pilots() + (k if case["pilots"] != "hadamard" else 0) * np.eye(Nt, Np) for k in range(3)])
+            Hs = np.array([chan() for _ in range(3)])
+            got, want = est.compute_ls_estimation(np.array([h @ s for h, s in zip(Hs, ss)]), ss), Hs
+        if np.shape(got) != np.shape(want):
+            return {"shape": [list(np.shape(got)), list(np.shape(want))]}
+        err = float(np.abs(np.asarray(got) - want).max())
+        if (not (err <= 1e-9 * max(1.0, float(np.abs(want).max())))):
+            return {"max |estimate - H|": err, "estimate dtype": str(np.asarray(got).dtype),
+                    "max |Im(estimate) - Im(H)|": float(np.abs(np.imag(got) - np.imag(want)).max())}
+        return None
+    return exhaustive(cases(), check)
+
+
 def _unit_seq(c, tag, N):
     r = np.empty(N, dtype=object)
     for i in range(N):
@@ -312,7 +364,62 @@ def ob_estimator(variant, ant, norm):
             except PyRaise as pr:
                 goals.append(Goal("second estimate from the same buffer raised %r" % (pr.exc,), False))
         return goals
-    return verify(body, check_side=False, timeout_ms=120000)
+    return verify(body, check_side=False, timeout_ms=120000, replay=_replay_estimator(variant, ant, norm, flat))
+
+
+def _replay_estimator(variant, ant, norm, flat):
+    """the configuration of the obligation on the real classes at an LTE size (24 subcarriers, 2 taps, generic values)"""
+    def rp(model):
+        import pyphysim.reference_signals.channel_estimation as ce
+        from pyphysim.reference_signals.root_sequence import RootSequence
+        from pyphysim.reference_signals.srs import SrsUeSequence
+        from pyphysim.reference_signals.dmrs import DmrsUeSequence
+        try:
+            for seed in range(3):
+                rr = np.random.RandomState(90 + seed)
+                size, L = 24, 2
+                root = RootSequence(int(rr.randint(1, 20)), size=size)
+                taps = rr.randn(ant, L) + 1j * rr.randn(ant, L)
+                Hf = np.fft.fft(taps, size)
+                where = {"confirmed": True, "variant": variant + ("_flat" if flat else ""), "antennas": ant, "normalize": repr(norm), "size": size, "taps": L}
+                if variant == "occ":
+                    seq = DmrsUeSequence(root, 0, cover_code=np.array([1, -1]), normalize=norm)
+                    est = ce.CazacBasedWithOCCChannelEstimator(seq)
+                    Y = Hf[:, np.newaxis, :] * seq.seq_array()[np.newaxis, :, :]
+                    if ant == 1:
+                        Y = Y[0]
+                    if flat:
+                        Y = Y.reshape(2 * size) if ant == 1 else Y.reshape(ant, 2 * size)
+                    Y = np.ascontiguousarray(Y)
+                    fr = Frame(Y=Y)
+                    args = (Y, L - 1, False) if flat else (Y, L - 1)
+                    got = est.estimate_channel_freq_domain(*args)
+                    want = np.fft.fft(taps, size)
+                    want = want if ant > 1 else want[0]
+                    if np.shape(got) != want.shape or (not (np.abs(got - want).max() <= 1e-8 * max(1.0, np.abs(want).max()))):
+                        return dict(where, max_error=float(np.abs(got - want).max()) if np.shape(got) == want.shape else "shape")
+                    if fr.changed():
+                        return dict(where, frame=fr.changed())
+                    got2 = est.estimate_channel_freq_domain(*args)
+                    if np.shape(got2) != want.shape or (not (np.abs(got2 - want).max() <= 1e-8 * max(1.0, np.abs(want).max()))):
+                        return dict(where, second_estimate_from_the_same_buffer="differs")
+                    continue
+                seq = SrsUeSequence(root, 0, normalize=norm)
+                Y = Hf * seq.seq_array()[np.newaxis, :]
+                if variant == "plain_two_users":
+                    taps2 = rr.randn(ant, L) + 1j * rr.randn(ant, L)
+                    Y = Y + np.fft.fft(taps2, size) * SrsUeSequence(root, 4, normalize=norm).seq_array()[np.newaxis, :]
+                est = ce.CazacBasedChannelEstimator(seq)
+                got = est.estimate_channel_freq_domain(Y if ant > 1 else Y[0], L - 1)
+                want = np.fft.fft(taps, 2 * size)
+                want = want if ant > 1 else want[0]
+                if np.shape(got) != want.shape or (not (np.abs(got - want).max() <= 1e-8 * max(1.0, np.abs(want).max()))):
+                    return dict(where, max_error=float(np.abs(got - want).max()) if np.shape(got) == want.shape else "shape",
+                                scale=float(np.abs(got).max() / max(np.abs(want).max(), 1e-300)) if np.shape(got) == want.shape else None)
+            return {"confirmed": False, "note": "real estimator exact for generic channels in this configuration"}
+        except Exception as e:
+            return {"confirmed": False, "error": "replay crashed: %r" % (e,)}
+    return rp
 
 
 class _OccSeq:
